@@ -57,6 +57,7 @@ def configs(tier):
         [("CH3", 1), ("DI3", 1), ("W", 2)],
         [("W", 1), ("MIX3", 1), ("CH2", 1)],
         [("DUPB", 1), ("W", 1)],        # residue ids restart inside the molecule (di-block numbered per block)
+        [("SOL", 2), ("CH2", 1), ("SOL", 1)],   # residues named SOL before and after a chain
     ]
     for mols in base_mols:
         types = sorted({n for n, _ in mols})
